@@ -553,6 +553,25 @@ func OracleC13() *Oracle {
 			short := math.NewIntFromBigInt(tot).Sub(bal)
 			put(m, "pending_backed@denom="+d, posPart(short))
 			Clauses.Inc("pending_backed")
+			// sharper: external incentives are funded UP FRONT, so part of the balance is already promised
+			// to FUTURE blocks; what is credited today must fit into the rest (else the last claimant of the
+			// incentive cannot be paid once it has run out)
+			promised := math.ZeroInt()
+			h := ctx.BlockHeight()
+			for _, inc := range w.App.MasterchefKeeper.GetAllExternalIncentives(ctx) {
+				if inc.RewardDenom != d || h >= inc.ToBlock {
+					continue
+				}
+				from := inc.FromBlock
+				if h > from {
+					from = h
+				}
+				promised = promised.Add(inc.AmountPerBlock.MulRaw(inc.ToBlock - from))
+			}
+			if promised.IsPositive() {
+				put(m, "pending_backed_net_of_promised@denom="+d, posPart(math.NewIntFromBigInt(tot).Sub(bal.Sub(promised))))
+				Clauses.Inc("pending_backed_net_of_promised")
+			}
 			if tot.Sign() > 0 {
 				Clauses.Inc("pending_backed_nonzero")
 			}
